@@ -265,13 +265,33 @@ func decodeValue(dec valueDecoder, param string, sm *openapi3.SerializationMetho
 	if len(schema.Value.AllOf) > 0 {
 		var value any
 		var err error
+		var merged map[string]any
 		for _, sr := range schema.Value.AllOf {
 			var f bool
 			value, f, err = decodeValue(dec, param, sm, sr, required)
 			found = found || f
-			if value == nil || err != nil {
+			if err != nil {
 				break
 			}
+			if obj, ok := value.(map[string]any); ok {
+				// every member describes part of the object: what each one decoded belongs to the value
+				if merged == nil {
+					merged = make(map[string]any, len(obj))
+				}
+				for k, v := range obj {
+					merged[k] = v
+				}
+				continue
+			}
+			if value == nil {
+				break
+			}
+		}
+		if err == nil && len(merged) > 0 {
+			return merged, found, nil
+		}
+		if noValueDecoded(value) {
+			value = nil
 		}
 		return value, found, err
 	}
@@ -280,7 +300,7 @@ func decodeValue(dec valueDecoder, param string, sm *openapi3.SerializationMetho
 		for _, sr := range schema.Value.AnyOf {
 			value, f, _ := decodeValue(dec, param, sm, sr, required)
 			found = found || f
-			if value != nil {
+			if !noValueDecoded(value) {
 				return value, found, nil
 			}
 		}
@@ -296,7 +316,7 @@ func decodeValue(dec valueDecoder, param string, sm *openapi3.SerializationMetho
 		for _, sr := range schema.Value.OneOf {
 			v, f, _ := decodeValue(dec, param, sm, sr, required)
 			found = found || f
-			if v != nil {
+			if !noValueDecoded(v) {
 				value = v
 				isMatched++
 			}
@@ -352,6 +372,20 @@ func decodeValue(dec valueDecoder, param string, sm *openapi3.SerializationMetho
 		return nil, found, errors.New("unsupported decoder")
 	}
 	return nil, found, nil
+}
+
+// noValueDecoded tells whether a decoder produced no value: nil, or an object or array without a single member
+// (an alternative none of whose properties was sent).
+func noValueDecoded(v any) bool {
+	switch x := v.(type) {
+	case nil:
+		return true
+	case map[string]any:
+		return len(x) == 0
+	case []any:
+		return len(x) == 0
+	}
+	return false
 }
 
 // pathParamDecoder decodes values of path parameters.
